@@ -20,6 +20,15 @@ func init() {
 			{ID: "C13.c", Template: "T-TYPESTATE", Required: true,
 				Doc: "In every method of a module type implementing CompressorProvider, each channel send/receive is a case of a non-blocking select and no Lock/Wait is called. A bare send after a len() check is check-then-act: two concurrent releases into one free slot block the second forever inside a response's deferred Close.",
 				Run: ruleC13c},
+			{ID: "C13.a", Template: "T-TYPESTATE", Required: true,
+				Doc: "Every object acquired from the CompressorProvider by framework code is released exactly once: a local owner registers `defer Release(x)` directly after acquiring; the field owner (CompressingResponseWriter.compressor) is stored only from an acquire result, released only by the closing function, after compressor.Close(), behind the nil guard that refuses a second Close, and the field is set to nil on every path after the release with no use in between; every other use of the field is behind the nil guard. Breaking any link releases an object twice (two responses share one compressor), never, or uses it after release.",
+				Run: ruleC13a},
+			{ID: "C13.b", Template: "T-ORDER", Required: true,
+				Doc: "Between an Acquire* and the first use of the acquired object there is a Reset onto this request's target: what the previous user left in a pooled object can then not reach this request (also the history clause of C16).",
+				Run: ruleC13b},
+			{ID: "C13.d", Template: "T-PROV", Required: true,
+				Doc: "Each Acquire* of a module provider returns a channel receive, a sync.Pool.Get or the result of a constructor that allocates a fresh object, and keeps no other reference to it; pool constructors are fresh as well. Otherwise a provider hands out an object that is still in use.",
+				Run: ruleC13d},
 		},
 	})
 }
@@ -89,5 +98,563 @@ func ruleC13c(c *Ctx) {
 		if nops == 0 {
 			c.triv(name, "no channel or lock operation", p.pos(fn.Pos()), "nothing that can block")
 		}
+	}
+}
+
+// ---------------------------------------------------------------------------
+
+type acquireSite struct {
+	Call *ssa.Call
+	Kind string // GzipWriter, GzipReader, ZlibWriter
+	Fn   *ssa.Function
+}
+
+// providerCall matches an invoke of CompressorProvider.<prefix><Kind>.
+func providerCall(p *Program, i ssa.Instruction, prefix string) (kind string, ok bool) {
+	c := callCommon(i)
+	if c == nil || !c.IsInvoke() {
+		return "", false
+	}
+	if !isRestfulNamed(c.Value.Type(), "CompressorProvider") {
+		return "", false
+	}
+	n := c.Method.Name()
+	if len(n) > len(prefix) && n[:len(prefix)] == prefix {
+		return n[len(prefix):], true
+	}
+	return "", false
+}
+
+func acquireSites(p *Program) []acquireSite {
+	var out []acquireSite
+	for _, fn := range p.SrcFunc {
+		eachInstr(fn, func(i ssa.Instruction) {
+			if call, ok := i.(*ssa.Call); ok {
+				if k, ok := providerCall(p, i, "Acquire"); ok {
+					out = append(out, acquireSite{call, k, fn})
+				}
+			}
+		})
+	}
+	return out
+}
+
+// isNilTestOfField reports whether cond (possibly a call to a one-line module helper)
+// is the comparison `load(field) == nil`; pol gives the polarity (true: EQL, false: NEQ).
+func isNilTestOfField(p *Program, cond ssa.Value, fld *types.Var) (isTest bool, eql bool) {
+	switch x := cond.(type) {
+	case *ssa.BinOp:
+		if x.Op != token.EQL && x.Op != token.NEQ {
+			return false, false
+		}
+		for _, pair := range [][2]ssa.Value{{x.X, x.Y}, {x.Y, x.X}} {
+			if isNilConst(pair[0]) {
+				if _, f, ok := fieldLoad(strip(pair[1])); ok && f == fld {
+					return true, x.Op == token.EQL
+				}
+			}
+		}
+	case *ssa.Call:
+		if cal := x.Call.StaticCallee(); cal != nil && p.inModule(cal) && cal.Blocks != nil {
+			rets := returnsOf(cal)
+			if len(rets) == 1 && len(rets[0].Results) == 1 {
+				return isNilTestOfField(p, rets[0].Results[0], fld)
+			}
+		}
+	case *ssa.UnOp:
+		if x.Op == token.NOT {
+			t, e := isNilTestOfField(p, x.X, fld)
+			return t, !e
+		}
+	}
+	return false, false
+}
+
+// guardedNonNil reports whether block b is only entered when field fld was tested non-nil.
+func guardedNonNil(p *Program, facts map[*ssa.BasicBlock]map[condFact]bool, b *ssa.BasicBlock, fld *types.Var) bool {
+	for f := range facts[b] {
+		if t, eql := isNilTestOfField(p, f.Cond, fld); t {
+			// cond true means (field==nil) when eql; we need field != nil
+			if eql != f.Pol {
+				return true
+			}
+		}
+	}
+	return false
+}
+
+func ruleC13a(c *Ctx) {
+	p := c.P
+	sites := acquireSites(p)
+	c.count("acquire_sites", len(sites))
+	ownerFields := map[*types.Var]bool{}
+	for _, s := range sites {
+		name := p.fname(s.Fn)
+		construct := "Acquire" + s.Kind
+		// who receives the acquired value?
+		var deferRel []*ssa.Defer
+		var otherRel []ssa.Instruction
+		var fieldStores []*types.Var
+		var walk func(v ssa.Value, seen map[ssa.Value]bool)
+		walk = func(v ssa.Value, seen map[ssa.Value]bool) {
+			if seen[v] {
+				return
+			}
+			seen[v] = true
+			for _, r := range referrers(v) {
+				switch x := r.(type) {
+				case *ssa.Defer:
+					if k, ok := providerCall(p, x, "Release"); ok && len(x.Call.Args) == 1 && strip(x.Call.Args[0]) == s.Call {
+						if k == s.Kind {
+							deferRel = append(deferRel, x)
+						} else {
+							c.bad(name, construct+" released as "+k, p.ipos(x), "release method does not match the acquire method")
+						}
+					}
+				case *ssa.Call:
+					if _, ok := providerCall(p, x, "Release"); ok && len(x.Call.Args) == 1 && strip(x.Call.Args[0]) == s.Call {
+						otherRel = append(otherRel, x)
+					}
+				case *ssa.MakeInterface:
+					walk(x, seen)
+				case *ssa.ChangeInterface:
+					walk(x, seen)
+				case *ssa.Phi:
+					walk(x, seen)
+				case *ssa.Store:
+					if x.Val == v {
+						if fa, ok := x.Addr.(*ssa.FieldAddr); ok {
+							f := fieldOfAddr(fa)
+							// a field of a module struct that is not a request body slot
+							if tn := fieldOwnerName(fa); tn != "" && p.namedType(tn) != nil && tn != "Request" {
+								fieldStores = append(fieldStores, f)
+							}
+						}
+					}
+				}
+			}
+		}
+		walk(s.Call, map[ssa.Value]bool{})
+		switch {
+		case len(deferRel) == 1 && len(otherRel) == 0 && len(fieldStores) == 0:
+			d := deferRel[0]
+			// registered before anything that can return or panic: same block, only loads in between
+			okAdj := d.Block() == s.Call.Block()
+			if okAdj {
+				from, to := indexInBlock(s.Call), indexInBlock(d)
+				for k := from + 1; k < to; k++ {
+					switch y := s.Call.Block().Instrs[k].(type) {
+					case *ssa.UnOp, *ssa.FieldAddr, *ssa.MakeInterface, *ssa.ChangeInterface, *ssa.ChangeType:
+						_ = y
+					default:
+						okAdj = false
+					}
+				}
+			}
+			c.check(okAdj, name, construct+" local owner", p.ipos(s.Call),
+				"defer Release"+s.Kind+"(x) is registered directly after the acquire (runs once on every exit, including panic); no other release of x",
+				"the deferred release is not registered directly after the acquire: a return or panic in between loses the object")
+		case len(deferRel) == 0 && len(otherRel) == 0 && len(fieldStores) >= 1:
+			for _, f := range fieldStores {
+				ownerFields[f] = true
+			}
+			c.ok(name, construct+" field owner", p.ipos(s.Call), "acquired object is handed to field "+fieldStores[0].Name()+"; its release discipline is decided on the field")
+		case len(deferRel) == 0 && len(otherRel) == 0:
+			c.bad(name, construct+" never released", p.ipos(s.Call), "acquired object has no deferred release and is not handed to an owning field")
+		default:
+			c.bad(name, construct+" release discipline", p.ipos(s.Call),
+				"acquired object must have exactly one owner: one deferred release, or one owning field (found deferred="+itoa(len(deferRel))+" plain="+itoa(len(otherRel))+" fields="+itoa(len(fieldStores))+"); a non-deferred release is skipped by a panic in between and a second release hands the object to two users")
+		}
+	}
+	// field owners
+	for fld := range ownerFields {
+		c13FieldOwner(c, fld)
+	}
+	// Release may be called by nobody else
+	for _, fn := range p.SrcFunc {
+		eachInstr(fn, func(i ssa.Instruction) {
+			k, ok := providerCall(p, i, "Release")
+			if !ok {
+				return
+			}
+			cc := callCommon(i)
+			arg := strip(cc.Args[0])
+			if ta, ok := arg.(*ssa.TypeAssert); ok {
+				arg = strip(ta.X)
+			}
+			if call, ok := arg.(*ssa.Call); ok {
+				if _, isAcq := providerCall(p, call, "Acquire"); isAcq {
+					return // handled above
+				}
+			}
+			if _, f, ok := fieldLoad(arg); ok && ownerFields[f] {
+				return // handled by the field-owner rule
+			}
+			c.bad(p.fname(fn), "Release"+k+" of a value that is neither an acquire result nor the owning field", p.ipos(i),
+				"a release outside the acquire/owner discipline can hand one object to two users")
+		})
+	}
+}
+
+func fieldOwnerName(fa *ssa.FieldAddr) string {
+	pt := fa.X.Type().Underlying().(*types.Pointer)
+	if n, ok := types.Unalias(pt.Elem()).(*types.Named); ok {
+		return n.Obj().Name()
+	}
+	return ""
+}
+
+func itoa(n int) string {
+	return fmtInt(n)
+}
+
+// c13FieldOwner decides the typestate of an owning field such as CompressingResponseWriter.compressor.
+func c13FieldOwner(c *Ctx, fld *types.Var) {
+	p := c.P
+	type access struct {
+		fn    *ssa.Function
+		instr ssa.Instruction
+		store *ssa.Store // non-nil for stores
+		load  *ssa.UnOp
+	}
+	var stores, loads []access
+	for _, fn := range p.SrcFunc {
+		eachInstr(fn, func(i ssa.Instruction) {
+			switch x := i.(type) {
+			case *ssa.Store:
+				if fa, ok := x.Addr.(*ssa.FieldAddr); ok && fieldOfAddr(fa) == fld {
+					stores = append(stores, access{fn: fn, instr: i, store: x})
+				}
+			case *ssa.UnOp:
+				if x.Op == token.MUL {
+					if fa, ok := x.X.(*ssa.FieldAddr); ok && fieldOfAddr(fa) == fld {
+						loads = append(loads, access{fn: fn, instr: i, load: x})
+					}
+				}
+			}
+		})
+	}
+	fname := "field " + fld.Name()
+	// (1) stores: acquire result in a function that allocates the owner, or nil in the closing function
+	closers := map[*ssa.Function][]*ssa.Store{}
+	for _, s := range stores {
+		v := strip(s.store.Val)
+		if isNilConst(v) {
+			closers[s.fn] = append(closers[s.fn], s.store)
+			continue
+		}
+		isAcq := false
+		if call, ok := v.(*ssa.Call); ok {
+			_, isAcq = providerCall(p, call, "Acquire")
+		}
+		fa := s.store.Addr.(*ssa.FieldAddr)
+		fresh := false
+		for _, src := range p.sources(fa.X, provDefault) {
+			if a, ok := src.(*ssa.Alloc); ok && a.Heap {
+				fresh = true
+			}
+		}
+		c.check(isAcq && fresh, p.fname(s.fn), fname+" stored non-nil", p.ipos(s.instr),
+			"stored from an Acquire* result into a freshly allocated owner",
+			"the owning field may only be set from an acquire result on a fresh owner (anything else shares or re-arms a released object)")
+	}
+	if len(closers) == 0 {
+		c.bad("-", fname+" is never set to nil", "-", "no closing function: the acquired object is never given up, or can be released repeatedly")
+	}
+	// (2..5) releases of the field's value
+	for _, fn := range p.SrcFunc {
+		facts := factsAt(fn)
+		var rels []ssa.Instruction
+		eachInstr(fn, func(i ssa.Instruction) {
+			if _, ok := providerCall(p, i, "Release"); !ok {
+				return
+			}
+			arg := strip(callCommon(i).Args[0])
+			if ta, ok := arg.(*ssa.TypeAssert); ok {
+				arg = strip(ta.X)
+			}
+			if _, f, ok := fieldLoad(arg); ok && f == fld {
+				rels = append(rels, i)
+			}
+		})
+		if len(rels) == 0 {
+			continue
+		}
+		name := p.fname(fn)
+		nilStores := closers[fn]
+		if len(nilStores) == 0 {
+			c.bad(name, fname+" released without being set to nil", p.ipos(rels[0]), "a second call releases the same object again: two users then share it")
+			continue
+		}
+		// find the stream-finishing call: invoke Close on a load of the field
+		var closeCalls []ssa.Instruction
+		eachInstr(fn, func(i ssa.Instruction) {
+			cc := callCommon(i)
+			if cc != nil && cc.IsInvoke() && cc.Method.Name() == "Close" {
+				if _, f, ok := fieldLoad(strip(cc.Value)); ok && f == fld {
+					closeCalls = append(closeCalls, i)
+				}
+			}
+		})
+		for _, r := range rels {
+			k, _ := providerCall(p, r, "Release")
+			// guard: only entered when the field was tested non-nil
+			c.check(guardedNonNil(p, facts, r.Block(), fld), name, "Release"+k+" behind the nil guard", p.ipos(r),
+				"only reached when the field is non-nil: a second Close releases nothing",
+				"release is not guarded by the field's nil test: closing twice releases the object twice")
+			if _, isDefer := r.(*ssa.Defer); isDefer {
+				c.bad(name, "Release"+k+" is deferred in the closing function", p.ipos(r), "runs after the field was cleared; ordering with the stream close cannot be established")
+				continue
+			}
+			closed := false
+			for _, cl := range closeCalls {
+				if instrDominates(cl, r) {
+					closed = true
+				}
+			}
+			c.check(closed, name, "Release"+k+" after compressor.Close()", p.ipos(r),
+				"the stream is finished (trailer written) before the object goes back to the pool",
+				"released before/without compressor.Close(): the next user resets an object whose stream was never finished, and this response lacks its trailer")
+			// nil store on every path after the release, no use of the field in between except releases and the store
+			for _, ret := range returnsOf(fn) {
+				if !canReach(r, ret) {
+					continue
+				}
+				stops := make([]ssa.Instruction, 0, len(nilStores))
+				for _, s := range nilStores {
+					stops = append(stops, s)
+				}
+				c.check(!canReachAvoiding(r, ret, stops), name, "field set to nil after Release"+k, p.ipos(r),
+					"every path from the release to the return clears the field",
+					"a path from the release to the return at "+p.ipos(ret)+" leaves the field set: the object can be released or written again")
+			}
+			for _, l := range loads {
+				if l.fn != fn || !canReach(r, l.instr) {
+					continue
+				}
+				// uses after the release: allowed only as argument of a (different-kind) release, guarded by its own encoding test
+				allowed := false
+				for _, r2 := range rels {
+					arg := strip(callCommon(r2).Args[0])
+					if ta, ok := arg.(*ssa.TypeAssert); ok {
+						arg = strip(ta.X)
+					}
+					if arg == l.load {
+						allowed = true
+					}
+				}
+				stops := make([]ssa.Instruction, 0, len(nilStores))
+				for _, s := range nilStores {
+					stops = append(stops, s)
+				}
+				if !allowed && canReachAvoiding(r, l.instr, stops) {
+					c.bad(name, "use of the field after Release"+k, p.ipos(l.instr), "the object is used after it went back to the pool")
+				}
+			}
+		}
+	}
+	// (6) every other use of the field is behind the nil guard
+	for _, l := range loads {
+		fn := l.fn
+		if len(closers[fn]) > 0 {
+			// closing function: uses must be guarded as well
+		}
+		// the guard helper itself (its only use of the field is the nil comparison)
+		onlyTest := true
+		for _, r := range referrers(l.load) {
+			if b, ok := r.(*ssa.BinOp); !ok || !(b.Op == token.EQL || b.Op == token.NEQ) || !(isNilConst(b.X) || isNilConst(b.Y)) {
+				onlyTest = false
+			}
+		}
+		if onlyTest {
+			continue
+		}
+		facts := factsAt(fn)
+		c.check(guardedNonNil(p, facts, l.instr.Block(), fld), p.fname(fn), "use of "+fname+" behind the nil guard", p.ipos(l.instr),
+			"the field is only used where it was tested non-nil (not yet released)",
+			"the field is used without the nil test: a write after Close reaches a released object")
+	}
+}
+
+// ---------------------------------------------------------------------------
+
+func ruleC13b(c *Ctx) {
+	p := c.P
+	for _, s := range acquireSites(p) {
+		name := p.fname(s.Fn)
+		var resets []ssa.Instruction
+		var uses []ssa.Instruction
+		for _, r := range referrers(s.Call) {
+			if _, ok := providerCall(p, r, "Release"); ok {
+				continue
+			}
+			if cc := callCommon(r); cc != nil && !cc.IsInvoke() && cc.StaticCallee() != nil && cc.StaticCallee().Name() == "Reset" && len(cc.Args) >= 1 && cc.Args[0] == s.Call {
+				if _, isDefer := r.(*ssa.Defer); !isDefer {
+					resets = append(resets, r)
+					continue
+				}
+			}
+			if _, ok := r.(*ssa.DebugRef); ok {
+				continue
+			}
+			uses = append(uses, r)
+		}
+		if len(resets) == 0 {
+			c.bad(name, "Acquire"+s.Kind+" without Reset", p.ipos(s.Call), "the pooled object is used with whatever target and state its previous user left")
+			continue
+		}
+		okAll := true
+		var offender ssa.Instruction
+		for _, u := range uses {
+			dom := false
+			for _, r := range resets {
+				if instrDominates(r, u) {
+					dom = true
+				}
+			}
+			if !dom {
+				okAll = false
+				offender = u
+			}
+		}
+		if okAll {
+			c.ok(name, "Acquire"+s.Kind+" then Reset", p.ipos(s.Call), "Reset at "+p.ipos(resets[0])+" precedes every other use of the acquired object ("+itoa(len(uses))+" uses)")
+		} else {
+			c.bad(name, "Acquire"+s.Kind+" used before Reset", p.ipos(offender), "a use of the acquired object is not preceded by Reset on every path")
+		}
+	}
+}
+
+// ---------------------------------------------------------------------------
+
+var freshCompressorCtors = map[string]bool{
+	"compress/gzip.NewWriterLevel": true, "compress/gzip.NewWriter": true, "compress/gzip.NewReader": true,
+	"compress/zlib.NewWriterLevel": true, "compress/zlib.NewWriter": true, "compress/flate.NewWriter": true,
+}
+
+// freshCtor reports whether every value fn returns is the result of an external compressor
+// constructor called in fn (or of another fresh constructor), i.e. a new object per call.
+func freshCtor(p *Program, fn *ssa.Function, depth int) bool {
+	if fn == nil || fn.Blocks == nil || depth > 3 {
+		return false
+	}
+	rets := returnsOf(fn)
+	if len(rets) == 0 {
+		return false
+	}
+	for _, r := range rets {
+		if len(r.Results) != 1 {
+			return false
+		}
+		for _, s := range p.sources(r.Results[0], provDefault) {
+			var call *ssa.Call
+			switch x := s.(type) {
+			case *ssa.Call:
+				call = x
+			case *ssa.Extract:
+				call, _ = x.Tuple.(*ssa.Call)
+				if x.Index != 0 {
+					return false
+				}
+			}
+			if call == nil {
+				return false
+			}
+			if freshCompressorCtors[calleeName(&call.Call)] {
+				continue
+			}
+			if cal := call.Call.StaticCallee(); cal != nil && p.inModule(cal) && freshCtor(p, cal, depth+1) {
+				continue
+			}
+			return false
+		}
+	}
+	return true
+}
+
+func ruleC13d(c *Ctx) {
+	p := c.P
+	for _, m := range providerMethods(p) {
+		if len(m.Name()) < 7 || m.Name()[:7] != "Acquire" {
+			continue
+		}
+		name := p.fname(m)
+		okAll := true
+		why := ""
+		kinds := map[string]bool{}
+		for _, r := range returnsOf(m) {
+			for _, s := range p.sources(r.Results[0], provDefault) {
+				switch x := s.(type) {
+				case *ssa.Extract:
+					if sel, ok := x.Tuple.(*ssa.Select); ok && x.Index >= 2 {
+						_ = sel
+						kinds["channel receive"] = true
+						continue
+					}
+					okAll, why = false, "returns "+s.String()
+				case *ssa.UnOp:
+					if x.Op == token.ARROW {
+						kinds["channel receive"] = true
+						continue
+					}
+					okAll, why = false, "returns "+s.String()
+				case *ssa.Call:
+					if calleeName(&x.Call) == "(*sync.Pool).Get" {
+						kinds["sync.Pool.Get"] = true
+						continue
+					}
+					if cal := x.Call.StaticCallee(); cal != nil && p.inModule(cal) && freshCtor(p, cal, 0) {
+						kinds["fresh "+cal.Name()+"()"] = true
+						continue
+					}
+					okAll, why = false, "returns the result of "+shortCallee(&x.Call)+", which is not a fresh-object constructor"
+				case *ssa.Const:
+					if x.Value == nil {
+						continue // zero value of the local before the select assigns it
+					}
+					okAll, why = false, "returns a constant"
+				default:
+					okAll, why = false, "returns "+s.Name()+" ("+s.String()+"), neither an idle pooled object nor a fresh one"
+				}
+			}
+		}
+		// the method keeps no other reference: no store/send of pointer-typed values
+		eachInstr(m, func(i ssa.Instruction) {
+			switch x := i.(type) {
+			case *ssa.Send:
+				okAll, why = false, "Acquire sends on a channel"
+			case *ssa.Store:
+				if _, isAlloc := x.Addr.(*ssa.Alloc); !isAlloc {
+					okAll, why = false, "Acquire stores to non-local memory at "+p.ipos(i)
+				}
+			}
+			if cc := callCommon(i); cc != nil && calleeName(cc) == "(*sync.Pool).Put" {
+				okAll, why = false, "Acquire puts an object back"
+			}
+		})
+		ks := ""
+		for k := range kinds {
+			if ks != "" {
+				ks += " | "
+			}
+			ks += k
+		}
+		c.check(okAll, name, "result provenance", p.pos(m.Pos()), "hands out: "+sortedJoin(kinds), why)
+	}
+	// sync.Pool New functions of the module
+	for _, fn := range p.SrcFunc {
+		eachInstr(fn, func(i ssa.Instruction) {
+			st, ok := i.(*ssa.Store)
+			if !ok {
+				return
+			}
+			fa, ok := st.Addr.(*ssa.FieldAddr)
+			if !ok || !isNamed(fa.X.Type().Underlying().(*types.Pointer).Elem(), "sync", "Pool") || fieldOfAddr(fa).Name() != "New" {
+				return
+			}
+			f := p.funcValue(st.Val)
+			c.check(f != nil && freshCtor(p, f, 0), p.fname(fn), "sync.Pool.New", p.ipos(i),
+				"the pool's constructor returns a fresh object per call", "the pool's New does not provably allocate a fresh object per call: two Gets may share one compressor")
+		})
 	}
 }
